@@ -903,6 +903,7 @@ func (sc *segmentController[T, O]) create(ctx context.Context, start time.Time) 
 	// Anchor stdEnd to the aligned start before any bump so end stays on the
 	// global grid even when start is bumped past a legacy off-grid neighbor;
 	// subsequent segments then self-heal back to the grid.
+	ts := start
 	alignedStart := options.SegmentInterval.Standard(start)
 	stdEnd := options.SegmentInterval.NextTime(alignedStart)
 	start = alignedStart
@@ -912,6 +913,14 @@ func (sc *segmentController[T, O]) create(ctx context.Context, start time.Time) 
 	var next *segment[T, O]
 	for _, s := range sc.lst {
 		if s.Contains(start.UnixNano()) {
+			start = s.End
+			continue
+		}
+		if !s.Start.After(ts) && s.End.After(start) {
+			// A legacy segment that sits between start and ts after a gap (no
+			// segment contains ts, so it ends at or before ts): the new segment
+			// must begin after it, otherwise it would be capped at s.Start and
+			// would not contain ts.
 			start = s.End
 			continue
 		}
